@@ -187,10 +187,14 @@ func (e *penv) exec(i int, op POp) {
 	case "update":
 		e.update(side, client)
 	case "freeze":
+		// bring the client up to date first, so that proofs of everything committed so far
+		// would verify if it were not for the status gate
+		e.update(side, client)
 		e.setFrozen(side, client, true)
 	case "unfreeze":
 		e.setFrozen(side, client, false)
 	case "expire":
+		e.update(side, client) // see "freeze"
 		d := e.drv[side]
 		cs := d.ClientState(client)
 		cons, ok := d.ConsensusState(client, cs.LatestHeight)
@@ -442,10 +446,11 @@ func genPCase(t *rapid.T) PCase {
 
 func TestC21Path(t *testing.T) {
 	vx.Check(t, vx.Prop[PCase]{
-		ID:        "C21",
-		Rule:      "real two-chain path (v1 unordered channel + v2 client pair): freeze/unfreeze (client state written with FrozenHeight), expiry around latestTs+trustingPeriod, recovery from a fresh substitute, interleaved with v1/v2 sends, receives, acks, client updates and every connection/channel handshake step with honest proofs; non-trivial = a use attempted through a client whose model status is not Active; distinct by full history",
-		MinNTFrac: 0.4,
-		Gen:       genPCase,
-		Run:       runC21Path(t),
+		ID:          "C21",
+		Rule:        "real two-chain path (v1 unordered channel + v2 client pair): freeze/unfreeze (client state written with FrozenHeight), expiry around latestTs+trustingPeriod, recovery from a fresh substitute, interleaved with v1/v2 sends, receives, acks, client updates and every connection/channel handshake step with honest proofs; non-trivial = a use attempted through a client whose model status is not Active; distinct by full history",
+		MinNTFrac:   0.4,
+		Assumptions: []string{"freezing/unfreezing a client of the real path is state injection through ClientKeeper.SetClientState", "recovery = ClientKeeper.RecoverClient (MsgRecoverClient after its authority check)", "packet timeouts are not attempted"},
+		Gen:         genPCase,
+		Run:         runC21Path(t),
 	})
 }
